@@ -1,5 +1,6 @@
-"""setup: build translator, whole Coq development, harness and extracted driver."""
+"""setup: build translator output, the Coq theorems, harness and extracted driver of every claimed property."""
 from common import *
+import importlib
 
 
 def main():
@@ -8,25 +9,33 @@ def main():
     if bad:
         print("grep gate:", bad)
         return 1
+    m = json.load(open(os.path.join(VERIF, "MANIFEST.json")))
+    pids = [c["property_id"] for c in m["checks"]]
+    os.makedirs(os.path.join(COQ, "gen"), exist_ok=True)
+    mods = [importlib.import_module(p.lower()) for p in pids]
     try:
-        print("gotab:", run_gotab())
-        open(os.path.join(COQ, "gen", ".stamp"), "w").close()
+        import c16
+        print("gosync:", c16.run_gosync())
+        for mod in mods:
+            if getattr(mod, "GOTAB", None):
+                print(mod.PID, "gotab:", run_gotab(mod))
+        targets = [mod.PROPS[:-2] + ".vo" for mod in mods]
         with Lock("coq"):
             coq_makefile()
-            rc, out = sh(["make", "-j%d" % NCPU], cwd=COQ, timeout=6 * 3600)
+            rc, out = sh(["make", "-j%d" % NCPU] + targets, cwd=COQ, timeout=6 * 3600)
         if rc != 0:
             print(out[-3000:])
             return 1
-        import importlib
-        for f in sorted(os.listdir(os.path.join(VERIF, "lib"))):
-            if re.match(r"c\d\d\.py$", f):
-                mod = importlib.import_module(f[:-3])
-                if hasattr(mod, "GOFILES"):
-                    build_impl(mod)
-                    build_model(mod)
+        for mod in mods:
+            if hasattr(mod, "GOFILES"):
+                build_impl(mod)
+            if hasattr(mod, "EXTRACT"):
+                build_model(mod)
+            if hasattr(mod, "setup"):
+                mod.setup()
     except BuildError as e:
         print(e.what)
         print(e.log[-3000:])
         return 1
-    print("setup ok in %.0fs" % (time.time() - t0))
+    print("setup ok in %.0fs for %s" % (time.time() - t0, pids))
     return 0
